@@ -240,6 +240,30 @@ func runC14(c *Ctx) {
 	{
 		sites := CallsIn(add, "(*txpool.addressTransactions).Add")
 		c.MinInstances("C14.R8 per-sender Add call", len(sites), 1)
+		// once the sender list took the incoming transaction nothing in Add removes from that
+		// list again: removal is by nonce, and after a replacement the replaced nonce is the
+		// incoming transaction's own slot (cleaning up the replaced ID belongs to the pool-wide
+		// indexes only)
+		for _, s := range sites {
+			for _, call := range AllCallsDeep(add) {
+				if call == s.Call || !instrDominates(s.Call, call) {
+					continue
+				}
+				isListRemove := func(name string, _ ssa.CallInstruction) bool {
+					return name == "(*txpool.addressTransactions).Remove" || name == "(*txpool.addressTransactions).remove"
+				}
+				var w []string
+				if isListRemove(CalleeName(call.Common()), call) {
+					w = []string{FuncKey(add) + " → " + CalleeName(call.Common())}
+				} else if g := call.Common().StaticCallee(); g != nil && IsOwn(g) {
+					w = p.Reaches(g, isListRemove, 3)
+				}
+				if w != nil {
+					c.Require("C14.R8 no-list-removal-after-insert", FuncKey(add)+" ⇒ "+CalleeName(call.Common()), p.InstrPos(call), "after the per-sender insert succeeded, Add does not remove from the sender list (by nonce) again", false, strings.Join(w, " ; "))
+				}
+			}
+		}
+		c.Require("C14.R8 no-list-removal-after-insert", FuncKey(add), p.Pos(add.Pos()), "calls after the per-sender insert were followed (own callees, depth 3)", true, "")
 		for _, s := range sites {
 			var removedID ssa.Value
 			for _, r := range *s.Call.Value().Referrers() {
@@ -279,14 +303,16 @@ func runC14(c *Ctx) {
 		lenAll := LenOf(IsField(pool, "allTransactions"))
 		maxTx := IsField("txpool.TransactionPoolConfig", "MaxTransactions")
 		found := 0
-		for i, e := range ff.Edges {
-			f := ff.Facts[i]
+		_ = ff
+		des := deepEdges(add) // the decision may sit in a helper (makeRoom)
+		for i, de := range des {
+			e, f := de.E, de.F
 			if !f.IsCmp || !((f.L.Any(lenAll.F) && f.R.Any(maxTx.F)) || (f.R.Any(lenAll.F) && f.L.Any(maxTx.F))) {
 				continue
 			}
 			// is this the eviction decision? the other successor must lead to an evict call
-			other := ff.Edges[i^1]
-			evicts := edgeDominatesAny(other, add, "evict")
+			other := des[i^1].E
+			evicts := edgeDominatesAny(other, e.If.Parent(), "evict")
 			if !evicts {
 				continue
 			}
